@@ -27,7 +27,7 @@ func init() {
 				"the answer flag, each written to its own byte range (no overlapping shifts). R8: every rule-list engine constructor " +
 				"receives the empty cache or a result cache created for it alone, once per engine.",
 			NotCovered: "equality of verdicts with and without caches over all list contents; client-specific modifiers ($client), which the property excludes.",
-			Rules: map[string]string{"C12-R19": "hashprefix.FilterRequest looks its verdict up and stores it under one cache key, computed from the request's own host, type and class", "C12-R17": "the clone functions of dnsmsg put no object of the source message into the clone (every option, record and slice is taken from a pool or copied)", "C12-R16": "hash-prefix storage and filter publish new state only after a successful load (shared with C13-R3)", "C12-R15": "an answer served from a result cache has the response code of the answer that was stored (SetReply resets it)", "C12-RC": "class rules (error chains, shadowed results, character classes, crossed arguments, pool constructors, array pools, loop completeness, loop-carried buffers, replacing setters, complete clones, Grow arithmetic, pooled-buffer escape, sorted searches, fresh decode targets, per-iteration objects, whole-message copies, codec guards) over the packages this property rests on", "C12-R14": "serviceblock.Filter.Refresh computes the new service map from the new index alone (never reads the map it replaces)", "C12-R13": "slices of a (possibly cached, shared) urlfilter.DNSResult are only read or copied, never stored or appended to", "C12-R1": "swap+clear in one write-locked section", "C12-R2": "query path read-holds the lock",
+			Rules: map[string]string{"C12-R20": "filterstorage forGroup and forClient hand out a composite filter built in this call from the lists that are current now (composite.New on every path): no filter assembled earlier, with the lists and result caches of an older refresh, is kept and handed out again", "C12-R19": "hashprefix.FilterRequest looks its verdict up and stores it under one cache key, computed from the request's own host, type and class", "C12-R17": "the clone functions of dnsmsg put no object of the source message into the clone (every option, record and slice is taken from a pool or copied)", "C12-R16": "hash-prefix storage and filter publish new state only after a successful load (shared with C13-R3)", "C12-R15": "an answer served from a result cache has the response code of the answer that was stored (SetReply resets it)", "C12-RC": "class rules (error chains, shadowed results, character classes, crossed arguments, pool constructors, array pools, loop completeness, loop-carried buffers, replacing setters, complete clones, Grow arithmetic, pooled-buffer escape, sorted searches, fresh decode targets, per-iteration objects, whole-message copies, codec guards) over the packages this property rests on", "C12-R14": "serviceblock.Filter.Refresh computes the new service map from the new index alone (never reads the map it replaces)", "C12-R13": "slices of a (possibly cached, shared) urlfilter.DNSResult are only read or copied, never stored or appended to", "C12-R1": "swap+clear in one write-locked section", "C12-R2": "query path read-holds the lock",
 				"C12-R3": "generalised refresh discipline (F9)", "C12-R4": "no per-request data in shared caches (F8)", "C12-R5": "custom engine staleness gate", "C12-R9": "caches store clones and hand out clones (shared with C07-R4)",
 				"C12-R10": "custom rules received from the backend are stamped with the time of reception (time.Now), the only stamp that is newer than every cached engine",
 				"C12-R6":  "collision checks", "C12-R7": "cache key dependence and injective packing", "C12-R8": "one result cache per engine"},
@@ -35,6 +35,9 @@ func init() {
 }
 
 func runC12(c *an.Ctx) {
+	// ---- R20: composite filters are assembled per request, not remembered across refreshes
+	c.Floor("C12-R20", 2)
+	c12FreshComposite(c, "C12-R20")
 	classSweep(c, "C12")
 	// ---- R19: the hash-prefix filter reads and fills its cache under the request's own key only
 	c.Floor("C12-R19", 1)
@@ -897,4 +900,59 @@ func c12OneKeyPerRequest(c *an.Ctx, rule string) {
 	}
 	c.Check(n >= 2 && bad == "", rule, key, fn.Pos(), fmt.Sprintf("%d uses of a cache key, all of the one value computed from the request's host, type and class", n),
 		bad+": a value built for this request is stored under another name's key, and a later query for that name is answered with records owned by this one")
+}
+
+// c12FreshComposite: the storage publishes new rule lists by replacing the
+// objects that forGroup / forClient pick up; a composite filter that outlives
+// the call that assembled it keeps the lists (and their result caches) of the
+// refresh it was assembled under.  Every value the two functions return is, on
+// every phi edge, the result of a composite.New call of this very invocation.
+func c12FreshComposite(c *an.Ctx, rule string) {
+	for _, k := range []string{"filter/filterstorage.(*Default).forGroup", "filter/filterstorage.(*Default).forClient"} {
+		fn := c.Prog.Fn(k)
+		key := k + " returns a filter assembled in this call"
+		if fn == nil {
+			c.Und(rule, key, token.NoPos, "anchor not found")
+			continue
+		}
+		c.Analysed(k)
+		bad := ""
+		n := 0
+		var check func(v ssa.Value, pos token.Pos, d int)
+		check = func(v ssa.Value, pos token.Pos, d int) {
+			switch x := v.(type) {
+			case *ssa.Phi:
+				if d > 4 {
+					bad = "the returned value could not be followed"
+					return
+				}
+				for _, e := range x.Edges {
+					check(e, pos, d+1)
+				}
+			case *ssa.MakeInterface:
+				check(x.X, pos, d+1)
+			case *ssa.ChangeInterface:
+				check(x.X, pos, d+1)
+			case *ssa.Call:
+				n++
+				if !strings.HasSuffix(an.CalleeName(x), "composite.New") {
+					bad = "the value returned at " + c.Pos(pos) + " comes from " + an.Short(an.CalleeName(x)) + ", not from composite.New"
+				}
+			default:
+				n++
+				bad = "the value returned at " + c.Pos(pos) + " (" + v.String() + ") was not assembled by this call"
+			}
+		}
+		for _, r := range an.Returns(fn) {
+			if len(r.Results) == 1 {
+				check(r.Results[0], r.Pos(), 0)
+			}
+		}
+		if n == 0 {
+			c.Und(rule, key, fn.Pos(), "no returned value found")
+			continue
+		}
+		c.Check(bad == "", rule, key, fn.Pos(), "every returned value is a composite.New result of this invocation",
+			bad+": a filter kept from an earlier call holds the rule lists, services and result caches that were current then, and requests go on being answered from them after a refresh")
+	}
 }
